@@ -82,7 +82,8 @@ pub fn dispatch(op: &str, _ty: &str, args: &[Arg]) -> Option<String> {
             ("rjust", [w, f]) => w2(res_sarr(&a.rjust(&ua(w)?, oca(f)?)), res_sarr(&okr(&a).rjust(&ua(w)?, oca(f)?))),
             ("split", [s, l]) => w2(res_list(&ArrayStringManipulate::split(&a, osa(s)?, oua(l)?)), res_list(&ArrayStringManipulate::split(&okr(&a), osa(s)?, oua(l)?))),
             ("rsplit", [s, l]) => w2(res_list(&a.rsplit(osa(s)?, oua(l)?)), res_list(&okr(&a).rsplit(osa(s)?, oua(l)?))),
-            ("compare", [b, Arg::S(name)]) => w2(res_bool(&a.compare(&sa(b)?, String::from_utf8(name.clone()).ok()?)), res_bool(&okr(&a).compare(&sa(b)?, String::from_utf8(name.clone()).ok()?))),
+            ("compare", [b, Arg::S(name)]) => w2(w2(res_bool(&a.compare(&sa(b)?, std::str::from_utf8(name).ok()?)), res_bool(&a.compare(&sa(b)?, String::from_utf8(name.clone()).ok()?))),
+                                                 w2(res_bool(&okr(&a).compare(&sa(b)?, std::str::from_utf8(name).ok()?)), res_bool(&okr(&a).compare(&sa(b)?, String::from_utf8(name.clone()).ok()?)))),
             ("translate", [Arg::L(tbl)]) => w2(res_sarr(&a.translate(tbl.chunks(2).filter(|p| p.len() == 2)
                 .map(|p| (char::from(p[0] as u8), char::from(p[1] as u8))).collect())), res_sarr(&okr(&a).translate(tbl.chunks(2).filter(|p| p.len() == 2)
                 .map(|p| (char::from(p[0] as u8), char::from(p[1] as u8))).collect()))),
